@@ -104,6 +104,12 @@ def edge_programs() -> Iterator[Dict[str, Any]]:
     yield P("choice_default_cond_last", [ybool(), Choice(prompt="c", defaults=[("X", S("Y")), ("X2", None)], children=[Cfg("X", "bool", prompt="x"), Cfg("X2", "bool", prompt="x2")]),
                                          Cfg("D", "int", defaults=[(L("1"), S("X")), (L("2"), None)])],
             {**YB, "X": ["y"]})
+    # the same with a PROMPTED option outside the choice following the selection, and an entry file (written under another
+    # default selection) whose marked entries are consistent with each other: only the choice's default has to be injected
+    yield P("choice_default_cond_outside_prompted", [ybool(), Choice(prompt="c", defaults=[("X", S("Y")), ("X2", None)], children=[Cfg("X", "bool", prompt="x"), Cfg("X2", "bool", prompt="x2")]),
+                                                     Cfg("D", "string", prompt="d", defaults=[(L('"one"'), S("X")), (L('"two"'), S("X2"))]),
+                                                     Cfg("U", "bool", prompt="u", defaults=[(L("y"), Rel("=", S("D"), L('"one"')))])],
+            {**YB, "X": ["y"], "X2": ["y"]}, loads=['# default:\nCONFIG_X=y\n# default:\n# CONFIG_X2 is not set\n# default:\nCONFIG_D="one"\n# default:\nCONFIG_U=y\n'])
     yield P("member_visibility", [ybool(), Choice(prompt="c", children=[Cfg("X", "bool", prompt="x", prompt_cond=S("Y")), Cfg("X2", "bool", prompt="x2")])],
             {**YB, "X": ["y"], "X2": ["y"]})
     yield P("member_depends", [ybool(), Choice(prompt="c", children=[Cfg("X", "bool", prompt="x", depends=[S("Y")]), Cfg("X2", "bool", prompt="x2")])],
@@ -117,6 +123,10 @@ def edge_programs() -> Iterator[Dict[str, Any]]:
     yield P("menu_visible_if", [ybool(), Menu(visible_if=[S("Y")], children=[Cfg("X", "int", prompt="x", defaults=[(L("3"), None)])])], {**YB, "X": ["4"]})
     yield P("menu_depends", [ybool(), Menu(depends=[S("Y")], children=[Cfg("X", "int", prompt="x", defaults=[(L("3"), None)])])], {**YB, "X": ["4"]})
     yield P("if_block", [ybool(), If(cond=S("Y"), children=[Cfg("X", "string", prompt="x", defaults=[(L('"d"'), None)])])], {**YB, "X": ["u"]})
+    # the prompt lives on the SECOND definition (first one: type + default only)
+    yield P("multi_def_prompt_second", [Cfg("X", "bool", defaults=[(L("n"), None)]), Cfg("G", "bool", prompt="g", defaults=[(L("y"), None)]), Cfg("X", "bool", prompt="x", depends=[S("G")]),
+                                        Cfg("Z", "int", prompt="z", defaults=[(L("3"), S("X")), (L("1"), None)]), Cfg("E", "string", prompt="e", depends=[S("X")], defaults=[(L('"on"'), None)])],
+            {"X": ["y", "n"], "G": ["n"]})
     yield P("multi_def", [ybool(), Cfg("X", "int", prompt="x", prompt_cond=S("Y"), defaults=[(L("1"), S("Y"))]), Cfg("X", "int", defaults=[(L("2"), None)])], {**YB, "X": ["5"]})
     # --- typed Y
     yield P("default_sym_int", [Cfg("Y", "int", prompt="y", defaults=[(L("1"), None)]), Cfg("X", "int", prompt="x", defaults=[(S("Y"), None)])], {"Y": ["5", "8"], "X": ["2"]})
@@ -208,6 +218,7 @@ def op_menu(item, k) -> List[tuple]:
     # files the tool itself wrote in another configuration of the same tree (one per settable option, first value)
     for t in item.get("tool_files", []):
         ops.append(("load", t, True))
+        ops.append(("load", t, False))  # merged into the current user values: its default-marked entries may then be out of date
     for s in k.unique_defined_syms:
         ops.append(("read", s.name))
     for i, _c in enumerate(k.unique_choices):
@@ -251,7 +262,7 @@ def explore_item(item, r: common.Result, only_history=None):
     wdepth = item["wdepth"]
     stale_texts = set(item["loads"])
     if "tool_files" not in item:
-        tf = []
+        tf = [impl.Inst(files).config_text()]
         for name, vals in item["setters"].items():
             w = impl.Inst(files)
             w.set(name, vals[0])
@@ -305,7 +316,20 @@ def explore_item(item, r: common.Result, only_history=None):
                 case,
             )
         # (2) fresh instance with the same final user state
-        stale = any(o[0] == "load" and o[1] in stale_texts for o in h)
+        # (4) reads are pure: the same history without its read operations leads to the same observation
+        if any(not is_w(o) for o in h):
+            t3 = build(tuple(o for o in h if is_w(o)))
+            obs_nr = t3.obs()
+            ch_nr = t3.choice_obs()
+            if obs_nr != obs_api or ch_nr != ch_api:
+                diff = [n for n in obs_api if obs_api[n] != obs_nr[n]]
+                r.violation(
+                    {"kind": "read_changed_outcome", "edge": kind, "fields": fields_diff(obs_api, obs_nr, diff)},
+                    f"[{kind}] after {fmt(h)}: {dict((n, obs_api[n][:3]) for n in diff)}, but without the reads in that history {dict((n, obs_nr[n][:3]) for n in diff)}"
+                    + (f"; choices {ch_api} vs {ch_nr}" if ch_api != ch_nr else ""),
+                    case,
+                )
+        stale = any(o[0] == "load" and (o[1] in stale_texts or not o[2]) for o in h)
         if not stale:
             vals, picks = final_user(st)
             for rev in (False, True):
